@@ -444,10 +444,10 @@ def r179(ctx) -> None:
                 it.context_expr) == 'suppress' for it in w.items)]
     # a yield reachable from the rename's exception edge (through a handler
     # that falls through)
-    exc_first = [m for r in ren for m, lab in r.succ if lab == 'e']
-    from_fail = cfg.reach(exc_first, labels=NORMAL, include_starts=True) \
-        if exc_first else set()
-    heads = {n for n in cfg.nodes if isinstance(n.stmt, (ast.For, ast.While))}
+    exc_first = [m for r in ren for m, lab in r.succ
+                 if lab in ('x', 'e') and m.kind == 'handler']
+    heads = {n for n in cfg.nodes if n.kind in ('for_iter', 'test')
+             and isinstance(n.stmt, (ast.For, ast.AsyncFor, ast.While))}
     # stop at the loop head: the next iteration is a different file
     from_fail_iter = cfg.reach(exc_first, avoid=list(heads), labels=NORMAL,
                                include_starts=True) if exc_first else set()
